@@ -63,6 +63,49 @@ Theorem C06_value_constructed : forall c,
 Proof. exact constructed_value_roundtrip. Qed.
 Print Assumptions C06_value_constructed.
 
+(* ---- documents -------------------------------------------------------------------------------------
+   a constructed document (Table::new() / DocumentMut::new() root; entries inserted by Table::insert:
+   values, tables, arrays of tables, nested to any depth) prints (Display for DocumentMut) as text that
+   DocumentMut::from_str accepts and decodes to the same abstract tree — same keys, nesting, types,
+   scalars, element order — up to what a TOML document can say at all (`printed_entries`, Model/Build.v):
+   in every table the values come before the sub-tables (the values keep their order, the sub-tables
+   keep theirs), and an ArrayOfTables without elements has no text (the key disappears).
+   Bounds: the parser's recursion limit applies to header paths (`tbl_hdepth`) and values (`tbl_vdepth`). *)
+From TV Require Import Proofs.BuiltRTDoc.
+Theorem C06_document : forall t,
+  BuiltTbl scalar_ok key_ok t -> tbl_hdepth t < LIMIT -> tbl_vdepth t < LIMIT ->
+  exists d, parse_document (display_document (render_tbl float_text t) REmpty) = POk d
+            /\ abs_tbl (doc_root d) = printed_entries (abs_tbl t).
+Proof. exact document_roundtrip. Qed.
+Print Assumptions C06_document.
+
+(* the table / array-of-tables / document constructors stay inside Built *)
+Theorem C06_built_document : forall PS PK from_table l,
+  centries_ok PS PK l -> BuiltTbl PS PK (eval_doc from_table l).
+Proof. exact (fun PS PK ft l H => eval_doc_built PS PK ft l H). Qed.
+Print Assumptions C06_built_document.
+
+Theorem C06_document_constructed : forall from_table l,
+  centries_ok scalar_ok key_ok l ->
+  tbl_hdepth (eval_doc from_table l) < LIMIT -> tbl_vdepth (eval_doc from_table l) < LIMIT ->
+  exists d, parse_document (display_document (render_tbl float_text (eval_doc from_table l)) REmpty) = POk d
+            /\ abs_tbl (doc_root d) = printed_entries (abs_tbl (eval_doc from_table l)).
+Proof. exact constructed_document_roundtrip. Qed.
+Print Assumptions C06_document_constructed.
+
+(* an in-order check that `printed_entries` only reorders and only drops empty arrays of tables: on a table
+   whose values already precede its sub-tables and that holds no empty array of tables it is the identity *)
+Example ex_printed_identity :
+  let l := [([x61], AVal (AScalar (SInt 1))); ([x62], AVal (AScalar (SBool true)));
+            ([x74], ATbl [([x78], AVal (AScalar (SInt 2))); ([x75], ATbl [])]);
+            ([x6f], AAot [[([x79], AVal (AScalar (SInt 3)))]; []])] in
+  printed_entries l = l.
+Proof. reflexivity. Qed.
+Example ex_printed_reorders :
+  printed_entries [([x74], ATbl []); ([x61], AVal (AScalar (SInt 1))); ([x6f], AAot [])]
+  = [([x61], AVal (AScalar (SInt 1))); ([x74], ATbl [])].
+Proof. reflexivity. Qed.
+
 (* ---- the hypotheses are satisfiable; nasty values; the depth bound is sharp ------------------------ *)
 Definition ex_nasty : cval :=
   CInlInsert
@@ -118,3 +161,34 @@ Proof.
   cbv zeta. split; [constructor; [reflexivity|split; [right; right|right]; reflexivity]|].
   split; [reflexivity|]. eexists. eexists. vm_compute. reflexivity.
 Qed.
+
+(* a document with a value after a sub-table, a table holding only sub-tables, arrays of tables inside arrays
+   of tables, an empty array of tables, nasty keys, a repeated key *)
+Definition ex_doc : list (bytes * citem) :=
+  [([x78], CValue (CScalar (SInt 1)));
+   ([x74], CTable [([x73; x75; x62], CTable [([x64; x65; x65; x70], CTable [])]); ([x2e], CTable [])]);
+   ([], CValue (CScalar (SString [x0a])));                                              (* empty key, after a table *)
+   ([x61], CAot [[([x62], CAot [[([x63], CValue (CScalar (SFloat (FDec false 15 (-1)))))]; []]); ([x76], CValue ex_array)]; []]);
+   ([x65], CAot []);                                                                    (* dropped by the printer *)
+   ([x31; x39; x37; x39; x2d; x30; x35; x2d; x32; x37], CTable [([x78], CValue (CInlInsert [([x20], CScalar (SBool false))]))]);
+   ([x78], CValue (CScalar (SInt 2)))].                                                 (* x again: replaced in place *)
+
+Example ex_doc_ok : centries_ok scalar_ok key_ok ex_doc.
+Proof. split; repeat (constructor; cbn; try reflexivity; try (split; reflexivity)). Qed.
+
+Example ex_doc_roundtrip :
+  exists d, parse_document (display_document (render_tbl float_text (eval_doc false ex_doc)) REmpty) = POk d
+            /\ abs_tbl (doc_root d) = printed_entries (abs_tbl (eval_doc false ex_doc))
+            /\ map fst (abs_tbl (doc_root d)) = [[x78]; []; [x74]; [x61]; [x31; x39; x37; x39; x2d; x30; x35; x2d; x32; x37]].
+Proof. eexists. split; [vm_compute; reflexivity|]. split; vm_compute; reflexivity. Qed.
+
+(* table nesting: header paths of 79 keys are read back, 80 are refused (recursion limit on key paths) *)
+Fixpoint nest_tbl (n : nat) (c : citem) : citem := match n with O => c | S n' => CTable [([x74], nest_tbl n' c)] end.
+Example ex_tbl_depth_79 :
+  exists d, parse_document (display_document (eval_doc false [([x74], nest_tbl 78 (CTable []))]) REmpty) = POk d
+            /\ abs_tbl (doc_root d) = abs_tbl (eval_doc false [([x74], nest_tbl 78 (CTable []))]).
+Proof. eexists. split; vm_compute; reflexivity. Qed.
+Example ex_tbl_depth_80_refused :
+  tbl_hdepth (eval_doc false [([x74], nest_tbl 79 (CTable []))]) = LIMIT /\
+  exists e at_, parse_document (display_document (eval_doc false [([x74], nest_tbl 79 (CTable []))]) REmpty) = PErr e at_.
+Proof. split; [reflexivity|]. eexists. eexists. vm_compute. reflexivity. Qed.
